@@ -41,3 +41,19 @@ Proof. vm_compute. reflexivity. Qed.
 Example ex_lock_excludes :
   run init [LCall 0 false; LCall 1 false; LStep (ACaller 0) 1; LStep (ACaller 1) 2] = None.
 Proof. vm_compute. reflexivity. Qed.
+
+(* the clock stands still and then steps BACK (readings 10, 10, 3, 0): every sender - two callers, a
+   third call, the receive loop's acknowledgement - still gets an id above the previous one *)
+Definition ex_clock_behind : list label := [
+  LCall 0 false; LCall 1 false;
+  LStep (ACaller 0) 10; LStep (ACaller 0) 0; LStep (ACaller 0) 0;
+  LStep (ACaller 1) 10; LStep (ACaller 1) 0; LStep (ACaller 1) 0;
+  LSrv (1, 1, BResult 40 false KObj 8);
+  LStep ARx 0; LStep ARx 0; LStep ARx 0;
+  LStep ARx 3; LStep ARx 0; LStep ARx 0; LStep ARx 0;
+  LCall 0 false; LStep (ACaller 0) 0; LStep (ACaller 0) 0].
+
+Example ex_clock_behind_ids :
+  option_map (fun s => map (fun w => (w_id w, w_seq w)) (wire_out (elog s))) (run init ex_clock_behind)
+  = Some [(52, 7); (48, 4); (44, 3); (40, 1)].
+Proof. vm_compute. reflexivity. Qed.
